@@ -118,7 +118,10 @@ def check(ctx):
                             stmts[cid] = ";".join(sts) if sts is not None else None
                             mlines.append("grammar %s %d %s" % (cid, ptx, sexp))
                             mlines.append("emit %s %d %d %s" % (cid, 0 if B.OPTSETS[o]["noast"] else 1, 1 if B.OPTSETS[o]["inline"] else 0, P.undef_bits(nodes)))
-                            mlines.append("semit %s %d %d %s" % (cid, 0 if B.OPTSETS[o]["noast"] else 1, 1 if B.OPTSETS[o]["inline"] else 0, P.undef_bits(nodes)))
+                            # the statement-level model is quadratic in the number of labels: on the 1000-rule stream of the
+                            # thorough tier only the skeleton is compared (the 300-rule stream of the quick tier has both)
+                            if len(names) <= 400:
+                                mlines.append("semit %s %d %d %s" % (cid, 0 if B.OPTSETS[o]["noast"] else 1, 1 if B.OPTSETS[o]["inline"] else 0, P.undef_bits(nodes)))
                     except P.ConvError:
                         pass
         # the driver is single-threaded: the lines of one generated file stay together, the files are spread over processes
